@@ -1,1 +1,43 @@
-From MS Require Import lib.Base.
+(* C09 - transport containment: peer bytes cause only protocol errors or timeouts. Statements only. *)
+From MS Require Import lib.Base gen.GenLan crypto.Modes model.Lan model.Session proofs.ContainProofs proofs.SessionProofs proofs.SessionHoare.
+Local Open Scope N_scope.
+
+(* byte level, EVERY byte string: the V2 packet decoder, the V3 packet processor (with or without a session key) and
+   their composition in LAN._read yield a result or a protocol error *)
+Theorem C09_v2_decode : forall p e, v2_decode p = Err e -> e = EProtocol.
+Proof. exact v2_decode_contained. Qed.
+Theorem C09_v3_process : forall key p e, (6 <= length p)%nat -> v3_process_packet key p = Err e -> e = EProtocol.
+Proof. exact v3_process_contained. Qed.
+Theorem C09_lan_read : forall key p e, (6 <= length p)%nat -> lan_read_v3 key p = Err e -> e = EProtocol.
+Proof. exact lan_read_v3_contained. Qed.
+(* the length premise always holds for what the reassembler hands over *)
+Theorem C09_queued_have_header : forall segs,
+  Forall (fun p => (8 <= length p)%nat) (snd (fold_left data_received segs ([], []))).
+Proof. exact queued_packets_have_header. Qed.
+Theorem C09_handshake : forall key r e, get_local_key key r = Err e -> e = EAuth \/ e = EValue.
+Proof. exact get_local_key_contained. Qed.
+Print Assumptions C09_v2_decode.
+Print Assumptions C09_v3_process.
+Print Assumptions C09_lan_read.
+Print Assumptions C09_queued_have_header.
+Print Assumptions C09_handshake.
+
+(* session level, EVERY state and EVERY environment: an exchange or an authentication ends in frames, a protocol /
+   authentication error or a timeout; the device-level wrappers report 'no response' / AuthenticationError *)
+Theorem C09_send : forall f r, hoare (fun _ => True) (lan_send f r) (fun _ _ => True) (fun e _ => allowed e).
+Proof. exact lan_send_contained. Qed.
+Theorem C09_authenticate : forall g r, hoare (fun _ => True) (lan_authenticate g (S r)) (fun _ _ => True) (fun e _ => allowed e).
+Proof. exact lan_authenticate_contained. Qed.
+Theorem C09_device_send : forall f w, exists l, fst (dev_send_command f w) = Ok l.
+Proof. exact dev_send_command_total. Qed.
+Theorem C09_device_authenticate : forall g w e, fst (dev_authenticate g w) = Err e -> e = EAuth.
+Proof. exact dev_authenticate_contained. Qed.
+Print Assumptions C09_send.
+Print Assumptions C09_authenticate.
+Print Assumptions C09_device_send.
+Print Assumptions C09_device_authenticate.
+
+Example C09_nonvacuous :
+  v2_decode [90; 90; 1; 17; 56; 0; 32; 0] = Err EProtocol
+  /\ v3_process_packet None [131; 112; 0; 0; 32; 3; 0; 0] = Err EProtocol.
+Proof. split; vm_compute; reflexivity. Qed.
